@@ -2,13 +2,15 @@
 C15 — extension operators only add well-placed cells, never touch observed data.
 Only property theorems live here (helper lemmas: `Lemmas/Extend.lean`).
 
-Proved: the right triangle and the right diagonal on a cumulative (`Cell` / `CumulativeCell`) input
-(`*_partial`: the incremental path — `to_cumulative`, `to_incremental`, `_fix_prev_evaluation_date` —
-is covered by the correspondence and the Spec on the implementation's output, not by a theorem), and
-the structure of `backfill`. Statements not proved are kept below as `-- OPEN` comments.
+Proved: the right triangle and the right diagonal, first on a cumulative (`Cell` / `CumulativeCell`) input
+(`*_partial`), then for both bases through the incremental path (`to_cumulative`, `to_incremental`,
+`_fix_prev_evaluation_date`: `rightTri_incremental_chain`, `rightTri_lags_exact`, ...); `fill_forward_gaps`;
+the structure of `backfill`. Statements not proved are kept at the end as comments.
 -/
 import Bermuda.Lemmas.Extend
 import Bermuda.Lemmas.ExtendFill
+import Bermuda.Lemmas.ExtendInc
+import Bermuda.Lemmas.ExtendIncCum
 import Bermuda.Spec.C15
 namespace Bermuda.Properties.C15
 open Bermuda Bermuda.Extend
@@ -114,6 +116,279 @@ theorem rightDiag_spec_partial {t out : List Cell} {dates : List Date}
   intro o ho hmd
   have hop : o ∈ p.2 := (slices_spec hp o).mpr ⟨ho, hmd.trans hem⟩
   exact Date.lt_of_not_gt_of_lt (maxEval_ge hm o hop) hd.2
+
+/-! ### incremental input: `to_cumulative`, `to_incremental`, `_fix_prev_evaluation_date` -/
+
+section Incremental
+variable {t out : List Cell} {lags : Option (List Rat)} {u : LagUnit}
+
+/-- **rightTri_incremental_chain**: on an incremental triangle `t` (cumulative form `cum`) every cell of
+the result is an empty incremental cell at the coordinate of one of the new cumulative cells `new`
+(exactly the `RightTriCell`s of `cum`), and its previous evaluation date continues the chain
+(`ChainCell`): the earliest added cell of a row starts at the evaluation date of the row's observed
+right-edge cell, every later one at the evaluation date of the added cell immediately before it. -/
+theorem rightTri_incremental_chain (hinc : Triangle.isIncremental t = true)
+    (h : makeRightTriangleU t lags (some u) = .ok out) :
+    ∃ cum new, Triangle.toCumulative t = .ok cum ∧ (∀ n, n ∈ new ↔ RightTriCell cum lags u n) ∧
+      ∀ c ∈ out, ChainCell t new c := by
+  obtain ⟨cum, new, hcum, hnew, hfin⟩ := makeRightTriangle_inc hinc h
+  have hiff := rightTriangleCells_mem hnew
+  exact ⟨cum, new, hcum, hiff, finishRight_inc hinc (fun n hn => RightTriCell.empty ((hiff n).mp hn)) hfin⟩
+
+/-- the right-edge cell a chain starts from is the latest observation of its row of `t` -/
+theorem chain_starts_at_latest {obs : List Cell} {e : Cell} (hobs : Triangle.rightEdge t = .ok obs)
+    (he : e ∈ obs) :
+    e ∈ t ∧ ∀ o ∈ t, o.md = e.md → o.ps = e.ps → o.pe = e.pe → Date.cmp o.ev e.ev ≠ .gt :=
+  rightEdge_latest hobs he
+
+/-- **rightTri_values_empty** (both bases) -/
+theorem rightTri_values_empty (h : makeRightTriangleU t lags (some u) = .ok out) :
+    ∀ c ∈ out, c.values = [] := by
+  cases hinc : Triangle.isIncremental t with
+  | false => exact rightTri_values_empty_partial hinc h
+  | true =>
+    obtain ⟨_, _, _, _, hch⟩ := rightTri_incremental_chain hinc h
+    exact fun c hc => (hch c hc).2.1
+
+/-- **rightTri_basis** (both bases): incremental in, incremental out (with a previous evaluation date);
+otherwise cumulative cells -/
+theorem rightTri_basis (h : makeRightTriangleU t lags (some u) = .ok out) :
+    ∀ c ∈ out, if Triangle.isIncremental t = true then c.kind = .incremental ∧ c.prev.isSome = true
+      else c.kind = .cumulative ∧ c.prev = none := by
+  intro c hc
+  cases hinc : Triangle.isIncremental t with
+  | false => simpa using rightTri_basis_partial hinc h c hc
+  | true =>
+    obtain ⟨_, _, _, _, hch⟩ := rightTri_incremental_chain hinc h
+    obtain ⟨hk, _, hp⟩ := hch c hc
+    simp only [if_true]
+    refine ⟨hk, ?_⟩
+    rcases hp with ⟨_, _, _, _, _, _, hp, _⟩ | ⟨_, _, _, _, _, _, hp, _⟩ <;> simp [hp]
+
+/-- **rightDiag_incremental_chain**: the same for `make_right_diagonal` (any `include_historic`) -/
+theorem rightDiag_incremental_chain {dates : List Date} {hist : Bool}
+    (hinc : Triangle.isIncremental t = true) (h : makeRightDiagonal t dates hist = .ok out) :
+    ∃ cum new, Triangle.toCumulative t = .ok cum ∧ (∀ n, n ∈ new ↔ RightDiagCell cum dates hist n) ∧
+      ∀ c ∈ out, ChainCell t new c := by
+  obtain ⟨cum, new, hcum, hnew, hfin⟩ := makeRightDiagonal_inc hinc h
+  have hiff := rightDiagonalCells_mem hnew
+  exact ⟨cum, new, hcum, hiff, finishRight_inc hinc (fun n hn => RightDiagCell.empty ((hiff n).mp hn)) hfin⟩
+
+end Incremental
+
+/-! ### both bases -/
+
+section BothBases
+variable {t out : List Cell} {lags : Option (List Rat)} {u : LagUnit}
+
+/-- the cumulative form the operators work on: `t` itself, or `to_cumulative(t)` -/
+def CumOf (t cum : List Cell) : Prop :=
+  (Triangle.isIncremental t = false ∧ cum = t) ∨
+  (Triangle.isIncremental t = true ∧ Triangle.toCumulative t = .ok cum)
+
+/-- **rightTri_lags_exact** (both bases): with `cum` the cumulative form of `t`, the coordinates
+(metadata, period, evaluation date) of the result are exactly those of the `RightTriCell`s of `cum`:
+for each slice and each right-edge cell of it, the lags of the slice's lag list that exceed the cell's lag. -/
+theorem rightTri_lags_exact (h : makeRightTriangleU t lags (some u) = .ok out) :
+    ∃ (cum new : List Cell), CumOf t cum ∧ (∀ n, n ∈ new ↔ RightTriCell cum lags u n) ∧
+      (∀ c ∈ out, ∃ n ∈ new, rowKey c = rowKey n ∧ c.ev = n.ev) ∧
+      (∀ n ∈ new, ∃ c ∈ out, rowKey c = rowKey n ∧ c.ev = n.ev) := by
+  cases hinc : Triangle.isIncremental t with
+  | false =>
+    obtain ⟨new, hnew, hperm⟩ := makeRightTriangle_cum hinc h
+    refine ⟨t, new, Or.inl ⟨hinc, rfl⟩, rightTriangleCells_mem hnew, ?_, ?_⟩
+    · exact fun c hc => ⟨c, hperm.mem_iff.mp hc, rfl, rfl⟩
+    · exact fun n hn => ⟨n, hperm.mem_iff.mpr hn, rfl, rfl⟩
+  | true =>
+    obtain ⟨cum, new, right, hcum, hni, hnew, hright, hperm, hfin⟩ := rightTri_reduces hinc h
+    have hiff := rightTriangleCells_mem hnew
+    have hempty : ∀ n ∈ new, n.kind = .cumulative ∧ n.values = [] ∧ n.prev = none :=
+      fun n hn => RightTriCell.empty ((hiff n).mp hn)
+    refine ⟨cum, new, Or.inr ⟨hinc, hcum⟩, hiff, ?_, ?_⟩
+    · intro c hc
+      obtain ⟨_, _, hch⟩ := finishRight_inc hinc hempty hfin c hc
+      rcases hch with ⟨_, _, _, _, _, _, _, ⟨n, hn, hk, he⟩, _⟩ | ⟨_, _, b, hb, _, hk, _, he, _⟩
+      · exact ⟨n, hn, hk.symm, he.symm⟩
+      · exact ⟨b, hb, hk.symm, he⟩
+    · apply finishRight_inc_cover hinc hempty ?_ hfin
+      intro n hn
+      obtain ⟨e, he, hne, _⟩ := ((hiff n).mp hn).row
+      obtain ⟨_, x, hx, hxk, _⟩ := (toCumulative_cells hinc hcum).1 e he
+      obtain ⟨h1, h2, h3⟩ := rowKey_eq_iff.mp hxk
+      refine ⟨x, hx, ?_, ?_⟩
+      · rw [hne]; exact h1
+      · rw [hne]; show (x.ps, x.pe) = (e.ps, e.pe); rw [h2, h3]
+
+/-- **rightTri_metadata** (both bases): every added cell carries the metadata and period of an observed
+cell `x` of `t` — the latest observation of that slice row -/
+theorem rightTri_metadata (h : makeRightTriangleU t lags (some u) = .ok out) {c : Cell} (hc : c ∈ out) :
+    ∃ x ∈ t, c.md = x.md ∧ c.ps = x.ps ∧ c.pe = x.pe ∧
+      ∀ o ∈ t, o.md = x.md → o.ps = x.ps → o.pe = x.pe → Date.cmp o.ev x.ev ≠ .gt := by
+  cases hinc : Triangle.isIncremental t with
+  | false => exact rightTri_metadata_partial hinc h hc
+  | true =>
+    obtain ⟨cum, new, right, hcum, hni, hnew, hright, hperm, hfin⟩ := rightTri_reduces hinc h
+    obtain ⟨cum', new', hcumof, hiff, hfwd, _⟩ := rightTri_lags_exact h
+    have : cum' = cum := by
+      rcases hcumof with ⟨h1, _⟩ | ⟨_, h2⟩
+      · rw [hinc] at h1; cases h1
+      · rw [hcum] at h2; cases h2; rfl
+    subst this
+    obtain ⟨n, hn, hk, _⟩ := hfwd c hc
+    obtain ⟨e, he, hne, hlatest, _⟩ := ((hiff n).mp hn).row
+    obtain ⟨hA, hB⟩ := toCumulative_cells hinc hcum
+    obtain ⟨_, x, hx, hxk, hxe⟩ := hA e he
+    obtain ⟨h1, h2, h3⟩ := rowKey_eq_iff.mp hxk
+    obtain ⟨k1, k2, k3⟩ := rowKey_eq_iff.mp hk
+    have n1 : n.md = e.md := by rw [hne]; rfl
+    have n2 : n.ps = e.ps := by rw [hne]; rfl
+    have n3 : n.pe = e.pe := by rw [hne]; rfl
+    refine ⟨x, hx, by rw [k1, n1, h1], by rw [k2, n2, h2], by rw [k3, n3, h3], ?_⟩
+    intro o ho hm hps hpe
+    obtain ⟨o', ho', hok, hoe⟩ := hB o ho
+    obtain ⟨m1, m2, m3⟩ := rowKey_eq_iff.mp hok
+    have := hlatest o' ho' (by rw [m1, hm, h1]) (by rw [m2, hps, h2]) (by rw [m3, hpe, h3])
+    rw [hoe, ← hxe] at this
+    exact this
+
+theorem lagListOf_int {lags : Option (List Rat)} {slice : List Cell}
+    (hal : ∀ c ∈ slice, MonthAligned c)
+    (hint : ∀ l, lags = some l → ∀ lag ∈ l, ∃ k : Int, lag = ((k : Int) : Rat)) :
+    ∀ lag ∈ lagListOf lags .month slice, ∃ k : Int, lag = ((k : Int) : Rat) := by
+  intro lag hlag
+  cases lags with
+  | some l => exact hint l rfl lag hlag
+  | none =>
+    simp only [lagListOf, List.mem_eraseDups] at hlag
+    obtain ⟨c, hc, rfl⟩ := List.mem_map.mp hlag
+    obtain ⟨_, hpe, _, hee, _, _⟩ := hal c hc
+    exact ⟨_, devLagMonths_monthEnds hpe hee⟩
+
+theorem monthAligned_of_row {x e : Cell} (hk : rowKey x = rowKey e) (hev : x.ev = e.ev)
+    (hx : MonthAligned x) : MonthAligned e := by
+  obtain ⟨_, _, h3⟩ := rowKey_eq_iff.mp hk
+  unfold MonthAligned at *
+  rw [← h3, ← hev]; exact hx
+
+/-- **rightTri_disjoint** (both bases; month unit, month-aligned triangle from 1970 on, integer requested
+lags): every added cell lies strictly after every observation of its slice row — no added coordinate is
+occupied. -/
+theorem rightTri_disjoint (h : makeRightTriangleU t lags (some .month) = .ok out)
+    (hal : ∀ c ∈ t, MonthAligned c)
+    (hint : ∀ l, lags = some l → ∀ lag ∈ l, ∃ k : Int, lag = ((k : Int) : Rat))
+    {c o : Cell} (hc : c ∈ out) (ho : o ∈ t) (hmd : o.md = c.md) (hps : o.ps = c.ps) (hpe : o.pe = c.pe) :
+    o.ev < c.ev := by
+  cases hinc : Triangle.isIncremental t with
+  | false =>
+    refine rightTri_disjoint_partial hinc h hal ?_ hc ho hmd hps hpe
+    intro p hp
+    exact lagListOf_int (fun c hc => hal c (mem_of_mem_slices hp hc)) hint
+  | true =>
+    obtain ⟨cum, new, right, hcum, hni, hnew, hright, hperm, hfin⟩ := rightTri_reduces hinc h
+    obtain ⟨hA, hB⟩ := toCumulative_cells hinc hcum
+    have halc : ∀ e ∈ cum, MonthAligned e := by
+      intro e he
+      obtain ⟨_, x, hx, hxk, hxe⟩ := hA e he
+      exact monthAligned_of_row hxk hxe (hal x hx)
+    obtain ⟨cum', new', hcumof, hiff, hfwd, _⟩ := rightTri_lags_exact h
+    have : cum' = cum := by
+      rcases hcumof with ⟨h1, _⟩ | ⟨_, h2⟩
+      · rw [hinc] at h1; cases h1
+      · rw [hcum] at h2; cases h2; rfl
+    subst this
+    obtain ⟨n, hn, hk, hne⟩ := hfwd c hc
+    have hn' : n ∈ new := (rightTriangleCells_mem hnew n).mpr ((hiff n).mp hn)
+    have hnr : n ∈ right := hperm.mem_iff.mpr hn'
+    obtain ⟨o', ho', hok, hoe⟩ := hB o ho
+    obtain ⟨m1, m2, m3⟩ := rowKey_eq_iff.mp hok
+    obtain ⟨k1, k2, k3⟩ := rowKey_eq_iff.mp hk
+    have := rightTri_disjoint_partial hni hright halc
+      (fun p hp => lagListOf_int (fun c hc => halc c (mem_of_mem_slices hp hc)) hint)
+      hnr ho' (by rw [m1, hmd, k1]) (by rw [m2, hps, k2]) (by rw [m3, hpe, k3])
+    rw [hoe, ← hne] at this
+    exact this
+
+/-- **rightTri_empty_when_complete** (both bases): if in the cumulative form no slice has a lag beyond
+the lag of one of its cells, the result is the empty triangle (also for an incremental input — D12) -/
+theorem rightTri_empty_when_complete (h : makeRightTriangleU t lags (some u) = .ok out)
+    {cum : List Cell} (hcum : CumOf t cum)
+    (hcomplete : ∀ p ∈ Triangle.slices cum, ∀ e ∈ p.2, ∀ lag ∈ lagListOf lags u p.2, ¬ lag > e.devLag u) :
+    out = [] := by
+  obtain ⟨cum', new, hcumof, hiff, hfwd, _⟩ := rightTri_lags_exact h
+  have : cum' = cum := by
+    rcases hcumof with ⟨h1, h2⟩ | ⟨h1, h2⟩ <;> rcases hcum with ⟨g1, g2⟩ | ⟨g1, g2⟩
+    · rw [h2, g2]
+    · rw [h1] at g1; cases g1
+    · rw [h1] at g1; cases g1
+    · rw [h2] at g2; cases g2; rfl
+  subst this
+  apply List.eq_nil_iff_forall_not_mem.mpr
+  intro c hc
+  obtain ⟨n, hn, _⟩ := hfwd c hc
+  obtain ⟨p, hp, edge, hedge, e, he, lag, hlag, hgt, _⟩ := (hiff n).mp hn
+  exact hcomplete p hp e (rightEdge_latest hedge he).1 lag hlag hgt
+
+/-- **rightDiag_spec** (both bases, `include_historic = False`): with `cum` the cumulative form of `t`, the
+coordinates of the result are exactly those of the `RightDiagCell`s of `cum`; every cell of the result is
+empty, sits at a requested date not before its period start, on the row of an observed cell, strictly
+after every observation of its slice — no added coordinate is occupied. (Incremental chain:
+`rightDiag_incremental_chain`.) -/
+theorem rightDiag_spec {dates : List Date} (h : makeRightDiagonal t dates false = .ok out) :
+    ∃ (cum new : List Cell), CumOf t cum ∧ (∀ n, n ∈ new ↔ RightDiagCell cum dates false n) ∧
+      (∀ c ∈ out, ∃ n ∈ new, rowKey c = rowKey n ∧ c.ev = n.ev) ∧
+      (∀ n ∈ new, ∃ c ∈ out, rowKey c = rowKey n ∧ c.ev = n.ev) ∧
+      (∀ c ∈ out, c.values = [] ∧ c.ev ∈ dates ∧ c.ps ≤ c.ev ∧
+        (∃ x ∈ t, x.md = c.md ∧ x.ps = c.ps ∧ x.pe = c.pe) ∧ ∀ o ∈ t, o.md = c.md → o.ev < c.ev) := by
+  cases hinc : Triangle.isIncremental t with
+  | false =>
+    obtain ⟨hiff, hfacts⟩ := rightDiag_spec_partial hinc h
+    obtain ⟨new, hnew, hperm⟩ := makeRightDiagonal_cum hinc h
+    refine ⟨t, new, Or.inl ⟨hinc, rfl⟩, rightDiagonalCells_mem hnew,
+      fun c hc => ⟨c, hperm.mem_iff.mp hc, rfl, rfl⟩, fun n hn => ⟨n, hperm.mem_iff.mpr hn, rfl, rfl⟩, ?_⟩
+    intro c hc
+    obtain ⟨e, he, hce, hd, hle, hafter⟩ := hfacts c hc
+    refine ⟨by rw [hce]; rfl, hd, by rw [hce]; exact hle, ⟨e, he, ?_, ?_, ?_⟩, hafter⟩ <;> (rw [hce]; rfl)
+  | true =>
+    obtain ⟨cum, new, right, hcum, hni, hnew, hright, hperm, hfin⟩ := rightDiag_reduces hinc h
+    obtain ⟨hA, hB⟩ := toCumulative_cells hinc hcum
+    have hiff := rightDiagonalCells_mem hnew
+    have hempty : ∀ n ∈ new, n.kind = .cumulative ∧ n.values = [] ∧ n.prev = none :=
+      fun n hn => RightDiagCell.empty ((hiff n).mp hn)
+    obtain ⟨_, hfacts⟩ := rightDiag_spec_partial hni hright
+    have hfwd : ∀ c ∈ out, c.values = [] ∧ ∃ n ∈ new, rowKey c = rowKey n ∧ c.ev = n.ev := by
+      intro c hc
+      obtain ⟨_, hv, hch⟩ := finishRight_inc hinc hempty hfin c hc
+      rcases hch with ⟨_, _, _, _, _, _, _, ⟨n, hn, hk, he⟩, _⟩ | ⟨_, _, b, hb, _, hk, _, he, _⟩
+      · exact ⟨hv, n, hn, hk.symm, he.symm⟩
+      · exact ⟨hv, b, hb, hk.symm, he⟩
+    refine ⟨cum, new, Or.inr ⟨hinc, hcum⟩, hiff, fun c hc => (hfwd c hc).2, ?_, ?_⟩
+    · apply finishRight_inc_cover hinc hempty ?_ hfin
+      intro n hn
+      obtain ⟨e, he, hne, _⟩ := hfacts n (hperm.mem_iff.mpr hn)
+      obtain ⟨_, x, hx, hxk, _⟩ := hA e he
+      obtain ⟨h1, h2, h3⟩ := rowKey_eq_iff.mp hxk
+      refine ⟨x, hx, ?_, ?_⟩
+      · rw [hne]; exact h1
+      · rw [hne]; show (x.ps, x.pe) = (e.ps, e.pe); rw [h2, h3]
+    · intro c hc
+      obtain ⟨hv, n, hn, hk, hev⟩ := hfwd c hc
+      obtain ⟨k1, k2, k3⟩ := rowKey_eq_iff.mp hk
+      obtain ⟨e, he, hne, hd, hle, hafter⟩ := hfacts n (hperm.mem_iff.mpr hn)
+      obtain ⟨_, x, hx, hxk, _⟩ := hA e he
+      obtain ⟨h1, h2, h3⟩ := rowKey_eq_iff.mp hxk
+      have n1 : n.md = e.md := by rw [hne]; rfl
+      have n2 : n.ps = e.ps := by rw [hne]; rfl
+      have n3 : n.pe = e.pe := by rw [hne]; rfl
+      refine ⟨hv, by rw [hev]; exact hd, by rw [hev, k2, n2]; exact hle,
+        ⟨x, hx, by rw [h1, k1, n1], by rw [h2, k2, n2], by rw [h3, k3, n3]⟩, ?_⟩
+      intro o ho hm
+      obtain ⟨o', ho', hok, hoe⟩ := hB o ho
+      obtain ⟨m1, _, _⟩ := rowKey_eq_iff.mp hok
+      have := hafter o' ho' (by rw [m1, hm, k1])
+      rw [hoe, ← hev] at this
+      exact this
+
+end BothBases
 
 /-! ### `backfill` -/
 
@@ -286,26 +561,8 @@ example : replacementValues exFirst ["earned_premium"]
 
 /-! ### statements not proved (covered by the correspondence + Spec on the implementation's output) -/
 
--- OPEN rightTri_lags_exact
---   the statement of `rightTri_lags_exact_partial` for an incremental input `t`, with the cells read off
---   `cum` where `Triangle.toCumulative t = .ok cum`, and each added cell an incremental cell:
---   makeRightTriangle t lags unit = .ok out → Triangle.toCumulative t = .ok cum →
---     (out.map fun c => (c.md, c.ps, c.pe, c.ev)).Perm (new.map ...)  for  rightTriangleCells cum lags unit = .ok new
--- OPEN rightTri_metadata
---   as `rightTri_metadata_partial` without `hinc`
--- OPEN rightTri_values_empty
---   ∀ t lags unit out, makeRightTriangle t lags unit = .ok out → ∀ c ∈ out, c.values = []   (incremental input included)
--- OPEN rightTri_basis
---   makeRightTriangle t lags unit = .ok out → Triangle.isIncremental t = true → ∀ c ∈ out, c.kind = .incremental ∧ c.prev.isSome
--- OPEN rightTri_disjoint
---   as `rightTri_disjoint_partial` for the day unit, for fractional lags, and for incremental input
--- OPEN rightTri_incremental_chain
---   makeRightTriangle t lags unit = .ok out → Triangle.isIncremental t = true → Spec.C15.chainOk t out = true
---   (first added cell of a row: prev = the row's observed right-edge evaluation date; later ones: prev = previous added date)
--- OPEN rightTri_empty_when_complete
---   as `rightTri_empty_when_complete_partial` for incremental input (holds in /repo since the D12 fix)
--- OPEN rightDiag_spec
---   as `rightDiag_spec_partial` for incremental input, plus the chain clause
+-- OPEN rightTri_disjoint_other_units
+--   as `rightTri_disjoint` for the day unit and for fractional (non-integer) month lags
 -- OPEN backfill_before_first_dates
 --   under month alignment the evaluation date of every added cell precedes the row's first observation:
 --   (∀ c ∈ t, MonthAligned c) → ... → a = backfillCell first repl res i → a.ev < first.ev
